@@ -95,6 +95,8 @@ class World:
         self.dir_calls = []            # (directive, path, canon(directive_args), args) recorded by @vtrec
         self.share_values = False      # the SAME Python object is returned whenever one field instance is resolved again
         self._shared = {}              # (through another alias / merged node): the engine must not write into resolver data
+        self.p_long_obj = 0.0          # probability that a ROOT-level list of objects is wide (size boundaries: 128, 130, 257 items)
+        self.long_obj_sizes = (128, 130, 257)
         self.p_long = 0.0              # probability that a list of leaves is LONG (513 / 600 / 1030 items: size boundaries)
         self.p_null_nonnull = 0.0      # probability of null data at a non-null position (C01: "any resolver data")
         self.mutate_args = False       # resolvers scribble over the argument containers they were given (C15)
@@ -156,6 +158,10 @@ class World:
             if self.p_long and t[1][0] != "L" and not (t[1][0] == "NN" and t[1][1][0] == "L") \
                     and self.s.kind(named_of(t[1])) in ("SCALAR", "ENUM") and rng.random() < self.p_long:
                 n = rng.choice([513, 600, 1030])
+            if self.p_long_obj and ident.count("/") <= 1 and "#" not in ident and t[1][0] != "L" \
+                    and not (t[1][0] == "NN" and t[1][1][0] == "L") \
+                    and self.s.kind(named_of(t[1])) in ("OBJECT", "INTERFACE", "UNION") and rng.random() < self.p_long_obj:
+                n = rng.choice(self.long_obj_sizes)
             return [self.gen_value(rng, t[1], "%s#%d" % (ident, i), T, f) for i in range(n)]
         name = t[1]
         kind = self.s.kind(name)
